@@ -20,6 +20,8 @@ FM2 = {"type": "field_name_mapping", "id": "fm2", "mapping": [["f", "g"]]}
 SW = {"type": "field_name_mapping", "id": "sw", "mapping": [["f", "fw"]], "cond": ["state", "index", "win"]}
 RF = {"type": "rule_failure", "id": "rf", "cond": ["product", 2]}
 RFS = {"type": "rule_failure", "id": "rfs", "cond": ["state", "index", "lin"]}
+STW = {"type": "set_state", "id": "stw", "key": "index", "val": "winevent", "cond": ["product", 1]}
+ST2 = {"type": "set_state", "id": "st2", "key": "idx2", "val": "two", "cond": ["product", 1]}
 FA = {"type": "field_name_mapping", "id": "fa", "mapping": [["fieldA", "mappedA"]]}
 FC = {"type": "field_name_mapping", "id": "fc", "mapping": [["fieldC", "mappedC"]]}
 
@@ -85,6 +87,9 @@ for _perm in itertools.permutations([SF, AF, RMF]):
     PDEFS.append(list(_perm))                       # set / add / remove in every order
 PDEFS += [[SF, AFL, RMFL, SA], [AF, SF2, AFL], [SA, CL, SA2, SF2, AF], [FM, AFL, RMFL, ST], [SF, FM2, FM, AF, SA]]
 FIELD_PDEFS = list(range(FIELD_PDEFS_START, len(PDEFS)))
+STATE_PDEFS_START = len(PDEFS)
+PDEFS += [[STW], [ST2, STW, FM], [STL, ST2]]          # conditional set_state only
+STATE_PDEFS = list(range(STATE_PDEFS_START, len(PDEFS)))
 def pd_items(pd): return pd["items"] if isinstance(pd, dict) else pd
 def pd_vars(pd): return pd.get("vars", {}) if isinstance(pd, dict) else {}
 OPTIONS = [{}, {"index": "prod"}, {"index": "dev*", "ns": "n1"}, {"ns": "n2"}]
@@ -98,7 +103,13 @@ CLASSES = [
     # ... with a class-level reader, and with a class-level pipeline that has no vars at all
     {"ne": True, "bk": [VP], "fmt": {}, "bkvars": {}, "fmtvars": {}},
     {"ne": False, "bk": [VP], "fmt": {"1": [FC]}, "bkvars": {"cv": "c3"}, "fmtvars": {"1": {"cv": "fmt1"}}},
+    # classes whose query_expression reads {state[key]} over ChainMap(pipeline state of the rule, class-level state_defaults)
+    {"ne": False, "bk": [], "fmt": {}, "qexpr": "index", "sdef": {"index": "main"}},
+    {"ne": True, "bk": [STW], "fmt": {}, "qexpr": "index", "sdef": {"index": "main", "other": "x"}},   # class-level conditional set_state
+    {"ne": False, "bk": [], "fmt": {}, "qexpr": "idx2", "sdef": {}},     # no default: KeyError unless the pipeline sets it
+    {"ne": False, "bk": [], "fmt": {}, "qexpr": "index"},               # inherits TextQueryBackend.state_defaults (empty, shared by all classes)
 ]
+QX_CLASSES = [7, 8, 9, 10]
 FMTS = [0, 1, 2, 3]
 ERRTAG = {"SigmaValueError": 1, "SigmaPlaceholderError": 2, "SigmaTypeError": 3, "SigmaConditionError": 4,
           "SigmaRegularExpressionError": 5, "SigmaModifierError": 6, "SigmaTransformationError": 7,
@@ -303,6 +314,20 @@ def gen_history(tier, rng):
             out.append(mk_case([d, 1, 0], [["new", cls, 0, True], ["coll", 0, [R_WIN, R_LIN, R_WIN], 3]]))
             out.append(mk_case([d, 1, 0], [["new", cls, 0, False], ["new", cls, 0, False], ["coll", 0, [R_C, R_LIN], 3], ["coll", 1, [R_LIN, R_C], 3]]))
             out.append(mk_case([d, d, 0], [["new", cls, 0, False], ["rule", 0, R_LIN, 3], ["new", cls, 1, False], ["rule", 1, R_WIN, 3], ["rule", 0, R_WIN, 3]]))
+    # class-level state_defaults behind {state[key]} in the query expression: a rule that gets the state set, then a probe
+    # that does not - on the same backend (convert / convert_rule), on a new backend of the class with its own pipeline
+    # object, with the shared one, with no pipeline; and the reverse order
+    qx = []
+    for cls in QX_CLASSES:
+        for d in STATE_PDEFS + [1]:
+            for first, probe in ((R_WIN, R_LIN), (R_LIN, R_WIN), (R_WIN, R_UNDEF), (R_WIN, R_C)):
+                for fmt in (0, 2):
+                    qx.append(mk_case([d, d, 0], [["new", cls, 0, False], ["rule", 0, first, fmt], ["rule", 0, probe, fmt]]))
+                    qx.append(mk_case([d, d, 0], [["new", cls, 0, False], ["coll", 0, [first, probe], fmt], ["coll", 0, [probe], fmt]]))
+                    qx.append(mk_case([d, d, 0], [["new", cls, 0, True], ["coll", 0, [first], fmt], ["new", cls, 1, False], ["rule", 1, probe, fmt]]))
+                    qx.append(mk_case([d, d, 0], [["new", cls, 0, False], ["rule", 0, first, fmt], ["new", cls, None, False], ["rule", 1, probe, fmt]]))
+                    qx.append(mk_case([d, d, 0], [["new", cls, 0, False], ["rule", 0, first, fmt], ["new", cls, 0, False], ["coll", 1, [probe, first], fmt]]))
+    out += qx if tier != "quick" else qx[:10] + rng.sample(qx, 200)
     optcases = []
     for cls in (0, 1, 4, 5, 6):
         for d in VAR_PDEFS[:3]:
@@ -316,7 +341,7 @@ def gen_history(tier, rng):
                             elif mode == 1: ops += [["init", 1, 2], ["rule", 0, probe_r, 2]]
                             else: ops.append(["coll", 1, [R_IDX, probe_r, R_WIN], 2])
                             optcases.append(mk_case([d, d, 0], ops))
-    out += optcases if tier != "quick" else optcases[:12] + rng.sample(optcases, 260)
+    out += optcases if tier != "quick" else optcases[:12] + rng.sample(optcases, 180)
     setups = [([1, 2, 0], [["new", 1, 0, False], ["new", 1, 0, True]]),      # shared user pipeline object, not-equals class
               ([2, 3, 0], [["new", 0, 0, False], ["new", 1, 1, True]]),      # nothing shared
               ([1, 1, 0], [["new", 2, None, False], ["new", 2, 1, False]])]  # class-level pipelines shared
@@ -340,6 +365,7 @@ def gen_history(tier, rng):
         if i % 4 == 1: users[0] = rng.choice(FILE_PDEFS)
         if i % 4 == 2: users[0] = rng.choice(VAR_PDEFS)
         if i % 4 == 3: users[0] = rng.choice(FIELD_PDEFS)
+        if i % 8 == 4: users[0] = rng.choice(STATE_PDEFS)
         out.append(mk_case(users, rand_history(rng, n, sharing=(i % 3 != 0))))
     return [c for c in out if valid(c["ops"])]
 
@@ -466,7 +492,9 @@ def history_to_coq(c, r):
            clist(f"(SUser {o}, {cnat(k)})" for o, u in enumerate(c["users"]) for k, d in enumerate(pd_items(c["pdefs"][u])) if d["type"] == "file_placeholders") + " " +
            clist(c_vars(k.get("bkvars", {})) for k in c["classes"]) + " " +
            clist(clist(f"({f}, {c_vars(v)})" for f, v in k.get("fmtvars", {}).items()) for k in c["classes"]) + " " +
-           clist(c_vars(pd_vars(c["pdefs"][u])) for u in c["users"]) + ")")
+           clist(c_vars(pd_vars(c["pdefs"][u])) for u in c["users"]) + " " +
+           clist(copt(cstr(k["qexpr"]) if k.get("qexpr") else None) for k in c["classes"]) + " " +
+           clist(clist(f"({cstr(a)}, {cstr(b)})" for a, b in k.get("sdef", {}).items()) for k in c["classes"]) + ")")
     ops = clist(c_op(o) for o in mops)
     iouts = clist(c_iout(o) for o in r["outs"])
     fresh = f"(Some {c_iout(r['fresh'])})" if r["fresh"] is not None else "(@None iout)"
@@ -599,7 +627,7 @@ PROPERTY = Property(
     suites=[Suite("history", gen_history, "run_history", REQ, "judge_history", history_to_coq,
                   known=known_history, mutate=mutate_history, stratum=stratum, shard=150)],
     extra_checks=[registry_check, readers_check],
-    rule="operation histories over {load (valid / invalid document), new backend (7 classes: plain, not-equals mode, with class-level "
+    rule="operation histories over {load (valid / invalid document), new backend (11 classes: plain, not-equals mode, with class-level "
          "backend+format pipelines, not-equals with format pipelines, class-level pipelines with vars but no items, with a class-level "
          "value_placeholders reader and no / some vars; user pipeline object shared or not; collect_errors; backend options), init pipeline, "
          "convert collection, convert rule} x 4 output formats x 6 pipeline definitions (state, state conditions, chained field mappings, "
@@ -613,7 +641,11 @@ PROPERTY = Property(
          "own / shared / no user pipeline object; probe by convert_rule, after a later init of the other backend, by convert); 11 pipeline "
          "definitions with set_field / add_field / remove_field (every order), set_custom_attribute, change_logsource, observed through a 4th "
          "output format that emits the processed rule's field list, custom attributes and log source; configuration of every transformation "
-         "object and vars of every pipeline definition compared with their initial value after every operation. Exhaustive: all histories of <= 1 (quick) / <= 2 "
+         "object and vars of every pipeline definition compared with their initial value after every operation; 4 backend classes whose "
+         "query_expression reads {state[key]} over ChainMap(rule's pipeline state, class-level state_defaults) (own defaults, class-level "
+         "conditional set_state, no default -> KeyError, inherited base-class dict) x pipelines with conditional set_state x order (rule with the "
+         "state set first / probe first) x same backend by convert / convert_rule, new backend of the class with its own, the shared, or no "
+         "pipeline; every dict / list / set attribute of the backend classes and their bases compared with its initial value after every operation. Exhaustive: all histories of <= 1 (quick) / <= 2 "
          "(thorough) operations from a 17-operation alphabet after two backend creations in 3 sharing setups x all 14 probes (6 of them at length 2), sampled at the next "
          "length (70 / 400 histories x 2 probes per setup); 400 / 6000 random histories of 2..8 operations incl. collections with a filter document. The last operation is the probe; oracle = same probe with new class objects, new "
          "pipeline objects from the same YAML and cleared caches. non-trivial = probe is a conversion preceded by at least one "
